@@ -291,13 +291,17 @@ Proof. unfold find_arg. induction l as [|d r IH]; [reflexivity|]. simpl. destruc
 Lemma sort_args_errs t0 name args :
   snd (sort_args S t0 name args) = map (fun _ => mkErr [] LOther EBadArg) (undeclared_args S t0 name args).
 Proof.
+  assert (Hl : forall fd (l : list arg),
+            map (fun _ : arg => mkErr [] LOther EBadArg)
+                (filter (fun av => match find_arg (fst av) (f_args fd) with None => true | Some _ => false end) l) =
+            map (fun _ : arg => mkErr [] LOther EBadArg) (filter (fun av => negb (declared_by fd av)) l)).
+  { intros fd l. induction l as [|x l IH]; [reflexivity|].
+    cbn [filter]. unfold declared_by. rewrite existsb_find_arg.
+    destruct (find_arg (fst x) (f_args fd)); cbn [negb map]; [exact IH|]. f_equal. exact IH. }
   unfold sort_args, undeclared_args. destruct args as [|a0 args0].
-  { destruct (lookup t0 S) as [[k|fs ifaces|fs|ms|fs]|]; try reflexivity. destruct (find_field name fs); reflexivity. }
-  destruct (lookup t0 S) as [[k|fs ifaces|fs|ms|fs]|]; try reflexivity.
-  destruct (find_field name fs) as [fd|]; [|reflexivity]. cbn [snd].
-  set (l := a0 :: args0). clearbody l. induction l as [|x l IH]; [reflexivity|].
-  cbn [filter]. unfold declared_by. rewrite existsb_find_arg.
-  destruct (find_arg (fst x) (f_args fd)); cbn [negb map]; [exact IH|]. f_equal. exact IH.
+  { destruct (lookup t0 S) as [[k|fs ifaces|fs|ms|fs]|]; try reflexivity; destruct (find_field name fs); reflexivity. }
+  destruct (lookup t0 S) as [[k|fs ifaces|fs|ms|fs]|]; try reflexivity;
+    (destruct (find_field name fs) as [fd|]; [|reflexivity]); cbn [snd]; apply Hl.
 Qed.
 
 (* Field.Args after sortArgs under a ConType that declares every supplied argument still holds
@@ -309,22 +313,31 @@ Proof.
   intros Hs Hn Hu. unfold sort_args. destruct args as [|a0 args0]; [simpl; auto|].
   set (args := a0 :: args0) in *.
   unfold undeclared_args in Hu.
+  assert (Hcore : forall fs fd, In (t0, match lookup t0 S with Some d => d | None => DLeaf LInt end) S ->
+            (match lookup t0 S with Some (DObject fl _) | Some (DInterface fl) => fl = fs | _ => False end) ->
+            find_field name fs = Some fd ->
+            filter (fun av => negb (declared_by fd av)) args = [] ->
+            Permutation (somes (map (fun d => find (fun av => Nat.eqb (fst av) (a_name d)) args) (f_args fd))) args).
+  { intros fs fd Hin Hfs Ef Hf. rewrite somes_map.
+    unfold wf_schema_args in Hs. rewrite forallb_forall in Hs. specialize (Hs _ Hin). cbn [snd] in Hs.
+    assert (Hnd : NoDup (map a_name (f_args fd))).
+    { assert (Hfd : In fd fs) by (unfold find_field in Ef; apply find_some in Ef; tauto).
+      destruct (lookup t0 S) as [[k|fl ifaces|fl|ms|fl]|]; try contradiction; subst fl;
+        rewrite forallb_forall in Hs; apply nodup_nat_spec; apply Hs; exact Hfd. }
+    pose proof (select_perm (map a_name (f_args fd)) args Hnd Hn) as P.
+    rewrite flat_map_concat_map, map_map, <- flat_map_concat_map in P. apply P.
+    intros av Hav.
+    assert (Hd : declared_by fd av = true).
+    { destruct (declared_by fd av) eqn:E; auto. exfalso.
+      assert (Hi : In av (filter (fun av0 => negb (declared_by fd av0)) args)) by (apply filter_In; rewrite E; auto).
+      rewrite Hf in Hi. inversion Hi. }
+    unfold declared_by in Hd. apply existsb_exists in Hd.
+    destruct Hd as [d [Hd E]]. apply Nat.eqb_eq in E. rewrite <- E. now apply in_map. }
   destruct (lookup t0 S) as [[k|fs ifaces|fs|ms|fs]|] eqn:El; try (cbn [fst]; rewrite somes_map_Some; auto).
-  destruct (find_field name fs) as [fd|] eqn:Ef; [|cbn [fst]; rewrite somes_map_Some; auto].
-  cbn [fst]. rewrite somes_map.
-  unfold wf_schema_args in Hs. rewrite forallb_forall in Hs.
-  specialize (Hs _ (lookup_In _ _ _ El)). cbn [snd] in Hs. rewrite forallb_forall in Hs.
-  assert (Hfd : In fd fs) by (unfold find_field in Ef; apply find_some in Ef; tauto).
-  specialize (Hs _ Hfd). apply nodup_nat_spec in Hs.
-  pose proof (select_perm (map a_name (f_args fd)) args Hs Hn) as P.
-  rewrite flat_map_concat_map, map_map, <- flat_map_concat_map in P. apply P.
-  intros av Hav.
-  assert (Hd : declared_by fd av = true).
-  { destruct (declared_by fd av) eqn:E; auto. exfalso.
-    assert (Hin : In av (filter (fun av0 => negb (declared_by fd av0)) args)) by (apply filter_In; rewrite E; auto).
-    rewrite Hu in Hin. inversion Hin. }
-  unfold declared_by in Hd. apply existsb_exists in Hd.
-  destruct Hd as [d [Hd E]]. apply Nat.eqb_eq in E. rewrite <- E. now apply in_map.
+  - destruct (find_field name fs) as [fd|] eqn:Ef; [|cbn [fst]; rewrite somes_map_Some; auto].
+    cbn [fst]. apply (Hcore fs fd (lookup_In _ _ _ El) eq_refl Ef Hu).
+  - destruct (find_field name fs) as [fd|] eqn:Ef; [|cbn [fst]; rewrite somes_map_Some; auto].
+    cbn [fst]. apply (Hcore fs fd (lookup_In _ _ _ El) eq_refl Ef Hu).
 Qed.
 
 End Args.
@@ -1119,28 +1132,27 @@ Lemma field_def_props t name fd args :
   (forall av, In av args -> In (fst av) (map a_name (f_args fd))).
 Proof.
   intros Hg Hf Hu. unfold get_field_def in Hg.
-  assert (Hn : NoDup (map fst args)).
-  { unfold field_args_ok in Hf. apply andb_true_iff in Hf. apply nodup_nat_spec. tauto. }
+  assert (Hn : NoDup (map fst args)) by (apply nodup_nat_spec; exact Hf).
+  assert (Hdecl : forall fs, find_field name fs = Some fd ->
+            filter (fun av => negb (declared_by fd av)) args = [] ->
+            forall av, In av args -> In (fst av) (map a_name (f_args fd))).
+  { intros fs Ef Hfl av Hav.
+    assert (Hd : declared_by fd av = true).
+    { destruct (declared_by fd av) eqn:E; auto. exfalso.
+      assert (Hin : In av (filter (fun av0 => negb (declared_by fd av0)) args)) by (apply filter_In; rewrite E; auto).
+      rewrite Hfl in Hin. inversion Hin. }
+    unfold declared_by in Hd. apply existsb_exists in Hd.
+    destruct Hd as [d [Hd E]]. apply Nat.eqb_eq in E. rewrite <- E. now apply in_map. }
+  unfold undeclared_args in Hu.
   destruct (lookup t S) as [[k|fs ifaces|fs|ms|fs]|] eqn:El; try discriminate.
-  - split; [|split; [exact Hn|]].
-    + unfold wf_schema_args in Hschema. rewrite forallb_forall in Hschema.
-      specialize (Hschema _ (lookup_In _ _ _ El)). cbn [snd] in Hschema. rewrite forallb_forall in Hschema.
-      apply nodup_nat_spec. apply Hschema. unfold find_field in Hg. apply find_some in Hg. tauto.
-    + intros av Hav. unfold undeclared_args in Hu. rewrite El, Hg in Hu.
-      assert (Hd : declared_by fd av = true).
-      { destruct (declared_by fd av) eqn:E; auto. exfalso.
-        assert (Hin : In av (filter (fun av0 => negb (declared_by fd av0)) args)) by (apply filter_In; rewrite E; auto).
-        rewrite Hu in Hin. inversion Hin. }
-      unfold declared_by in Hd. apply existsb_exists in Hd.
-      destruct Hd as [d [Hd E]]. apply Nat.eqb_eq in E. rewrite <- E. now apply in_map.
-  - split; [|split; [exact Hn|]].
-    + unfold wf_schema_args in Hschema. rewrite forallb_forall in Hschema.
-      specialize (Hschema _ (lookup_In _ _ _ El)). cbn [snd] in Hschema. rewrite forallb_forall in Hschema.
-      apply nodup_nat_spec. apply Hschema. unfold find_field in Hg. apply find_some in Hg. tauto.
-    + intros av Hav. unfold field_args_ok in Hf. apply andb_true_iff in Hf. destruct Hf as [_ Hall].
-      rewrite forallb_forall in Hall. specialize (Hall _ (lookup_In _ _ _ El)). cbn [snd] in Hall.
-      rewrite Hg in Hall. rewrite forallb_forall in Hall. specialize (Hall _ Hav). apply existsb_exists in Hall.
-      destruct Hall as [d [Hd E]]. apply Nat.eqb_eq in E. rewrite <- E. now apply in_map.
+  - rewrite Hg in Hu. split; [|split; [exact Hn|exact (Hdecl fs Hg Hu)]].
+    unfold wf_schema_args in Hschema. rewrite forallb_forall in Hschema.
+    specialize (Hschema _ (lookup_In _ _ _ El)). cbn [snd] in Hschema. rewrite forallb_forall in Hschema.
+    apply nodup_nat_spec. apply Hschema. unfold find_field in Hg. apply find_some in Hg. tauto.
+  - rewrite Hg in Hu. split; [|split; [exact Hn|exact (Hdecl fs Hg Hu)]].
+    unfold wf_schema_args in Hschema. rewrite forallb_forall in Hschema.
+    specialize (Hschema _ (lookup_In _ _ _ El)). cbn [snd] in Hschema. rewrite forallb_forall in Hschema.
+    apply nodup_nat_spec. apply Hschema. unfold find_field in Hg. apply find_some in Hg. tauto.
 Qed.
 
 
@@ -1207,8 +1219,7 @@ Proof.
       unfold rel. split; [reflexivity|]. split; [rewrite Hmap; apply Permutation_refl|].
       rewrite Hs0. now rewrite app_nil_r. }
   cbn [map].
-  assert (Hnd : NoDup (map fst args)).
-  { unfold field_args_ok in Hargs. apply andb_true_iff in Hargs. apply nodup_nat_spec. tauto. }
+  assert (Hnd : NoDup (map fst args)) by (apply nodup_nat_spec; exact Hargs).
   pose proof (sort_args_perm S t name args Hschema Hnd Hu) as Hperm.
   set (cur := fst (sort_args S t name args)) in *. clearbody cur.
   destruct (Nat.eqb name TYPENAME).
